@@ -235,7 +235,9 @@ CHECKS['C08'] = dict(
         'contracts: discovery returns exact statistics, each verifier reports satisfied iff the documented meaning holds - so a row '
         'beyond a discovered bound makes that constraint fail (only-if direction) - and never raises on well-formed views; the '
         'database instance of types_compatible is proved to be exact-type equality. The SQL calculator (string-built SQL over SQLite) '
-        'enters through the assumed A-calc contracts and is decided by the bounded layer (labelled): generated tables of every column '
+        'enters through the assumed A-calc contracts: the calculator methods themselves are proved to hand on the answer of the database handler\'s '
+        'query of the same name for this table and column (14 delegation contracts), and the queries (SQL text and its meaning in the engine) are '
+        'decided by the bounded layer (labelled): generated tables of every column '
         'type incl. quotes, backslashes, unicode, empty strings, all-null and empty tables, rex off/on, discovered, verified and '
         're-verified after every single-row perturbation.',
    note='Trusted: A-calc for the SQL calculator (audited on SQLite per run), A-card, A-pigeonhole, FP-REAL, pyvc encoding, z3/cvc5. '
